@@ -48,6 +48,9 @@ pub enum Op {
     /// let `half_s` x 0.5 s pass for every tracked aircraft
     Advance { half_s: u16 },
     Prune { t: u64 },
+    /// the receiver moves to another site (the clients pass the receiver position with every
+    /// frame; radar updates it from gpsd)
+    MoveRx { site: u8 },
 }
 
 #[derive(Clone, Debug, PartialEq)]
@@ -67,7 +70,8 @@ pub struct Scenario {
 // (the last site has the latitude of the first and another longitude: anything remembered per latitude shows)
 pub const RX: [(f64, f64); 8] = [(52.0, 4.0), (85.0, 10.0), (0.01, 179.9), (-33.9, 151.2), (40.0, -100.0), (0.0, 0.0), (-89.0, -179.95), (52.0, -120.0)];
 pub const RANGES: [f64; 4] = [500.0, 50.0, 20000.0, 0.0];
-const ADDR: [u32; 5] = [0xabc001, 0x000a0b, 0x4840d6, 0xffffff, 0x7c0017];
+// (two addresses that differ in the last octet only, the all-zero and the all-one address)
+const ADDR: [u32; 5] = [0xabc001, 0xabc002, 0x000000, 0xffffff, 0x7c0017];
 
 fn bearing_s() -> impl Strategy<Value = u16> {
     0u16..360
@@ -114,11 +118,12 @@ fn op_s(nac: u8, with_time: bool) -> BoxedStrategy<Op> {
             16 => sq,
             2 => other,
             2 => (1u16..12).prop_map(|half_s| Op::Advance { half_s }),
+            1 => (0u8..RX.len() as u8).prop_map(|site| Op::MoveRx { site }),
             1 => prop_oneof![8 => 0u64..5, 1 => prop_oneof![Just(u64::MAX), Just(1u64 << 63), Just(i64::MAX as u64), Just(1u64 << 40), Just(u32::MAX as u64 + 1)]].prop_map(|t| Op::Prune { t }),
         ]
         .boxed()
     } else {
-        prop_oneof![9 => sq, 1 => other].boxed()
+        prop_oneof![36 => sq, 4 => other, 1 => (0u8..RX.len() as u8).prop_map(|site| Op::MoveRx { site })].boxed()
     }
 }
 
@@ -415,7 +420,7 @@ pub fn run_history(s: &Scenario, only: Option<u8>, trace: bool) -> RunOut {
     let mut planes = Airplanes::new();
     let mut model = Model::default();
     let mut out = RunOut { fails: vec![], planes: Airplanes::new(), publishes: 0, clears: 0, partial_prunes: 0, interleaved: false, saw_df18: false, saw_other: false, dontcare: 0, jump_clears: 0, range_clears: 0, readds: 0, steps: vec![] };
-    let (rx, range) = (world.rx, world.range);
+    let (mut rx, range) = (world.rx, world.range);
     let mut last_ac: Option<u8> = None;
     let mut ever: std::collections::BTreeSet<u32> = Default::default();
     for (opi, op) in s.ops.iter().enumerate() {
@@ -469,6 +474,13 @@ pub fn run_history(s: &Scenario, only: Option<u8>, trace: bool) -> RunOut {
                     step_model(&mut model, &b, added, &planes, rx, range, &mut fails, &mut out, &mut ever);
                 }
             }
+            Op::MoveRx { site } => {
+                world.rx = RX[*site as usize % RX.len()];
+                rx = world.rx;
+                if trace {
+                    out.steps.push(format!("{opi}: receiver moves to {rx:?}"));
+                }
+            }
             Op::Advance { half_s } => {
                 for (k, r) in model.recs.iter_mut() {
                     r.age_half_s += *half_s as u64;
@@ -489,6 +501,10 @@ pub fn run_history(s: &Scenario, only: Option<u8>, trace: bool) -> RunOut {
                 }
                 let mut got: Vec<u32> = planes.keys().map(icao_u).collect();
                 got.sort_unstable();
+                if let Some(k) = keep.iter().find(|k| !got.contains(k)) {
+                    // C12's side of the same event: the tracked set shrank by an aircraft that had not expired
+                    fails.push(("C12/removed_without_expiry".into(), format!("prune({t}) removed {k:06x}, which was heard {} s ago", model.recs.get(k).map(|r| r.age_half_s as f64 / 2.0).unwrap_or(0.0))));
+                }
                 if got != keep {
                     fails.push(("C15/prune_keys".into(), format!("prune({t}) left {:?}, expected {:?} (ages in s: {:?})", got.iter().map(|x| format!("{x:06x}")).collect::<Vec<_>>(), keep.iter().map(|x| format!("{x:06x}")).collect::<Vec<_>>(), before["records"].as_object().map(|o| o.keys().cloned().collect::<Vec<_>>()))));
                 } else {
@@ -916,6 +932,7 @@ fn op_json(o: &Op) -> Value {
         Op::OtherFormat { ac, df, fill } => json!({"other_format": [ac, df, fill]}),
         Op::Advance { half_s } => json!({"advance_half_s": half_s}),
         Op::Prune { t } => json!({"prune": t}),
+        Op::MoveRx { site } => json!({"move_rx": site}),
     }
 }
 
@@ -958,6 +975,9 @@ fn op_from(v: &Value) -> Option<Op> {
     if let Some(h) = v.get("advance_half_s") {
         return Some(Op::Advance { half_s: u(h) as u16 });
     }
+    if let Some(x) = v.get("move_rx") {
+        return Some(Op::MoveRx { site: u(x) as u8 });
+    }
     v.get("prune").map(|t| Op::Prune { t: u(t) })
 }
 
@@ -999,6 +1019,12 @@ pub fn replay(pid: &str, v: &Value) -> Vec<Failure> {
         let rounds = v["rounds"].as_u64().unwrap_or(2) as usize;
         return crowd_check(v["seed"].as_u64().unwrap_or(1), n, rounds).into_iter().filter(|f| f.0.starts_with(pid)).map(|(sig, msg)| Failure { sig, msg, replay: v.clone() }).collect();
     }
+    if v.get("kind").and_then(|k| k.as_str()) == Some("long_flight") {
+        return long_flight_check(v["n"].as_u64().unwrap_or(9000) as usize).into_iter().filter(|f| f.0.starts_with(pid) || f.0.starts_with("C01")).map(|(sig, msg)| Failure { sig, msg, replay: v.clone() }).collect();
+    }
+    if v.get("kind").and_then(|k| k.as_str()) == Some("crowd_expiry") {
+        return crowd_expiry_check(v["n"].as_u64().unwrap_or(300) as usize).into_iter().map(|(sig, msg)| Failure { sig, msg, replay: v.clone() }).collect();
+    }
     if v.get("kind").and_then(|k| k.as_str()) == Some("crowd_positions") {
         return crowd_positions_check(v["seed"].as_u64().unwrap_or(1), v["n"].as_u64().unwrap_or(900) as usize).into_iter().filter(|f| f.0.starts_with(pid)).map(|(sig, msg)| Failure { sig, msg, replay: v.clone() }).collect();
     }
@@ -1022,7 +1048,8 @@ pub fn crowd_check(seed: u64, n: usize, rounds: usize) -> Vec<Fail> {
     let mut planes = Airplanes::new();
     let mut counts: BTreeMap<u32, u32> = BTreeMap::new();
     let mut fails = vec![];
-    let addrs: Vec<u32> = (0..n as u32).map(|i| 0x100000 + i * 0x1003 + (i % 7)).collect();
+    // (every third address belongs to one block of consecutive addresses: a fleet)
+    let addrs: Vec<u32> = (0..n as u32).map(|i| if i % 3 == 0 { 0x300000 + i } else { 0x100000 + i * 0x1003 + (i % 7) }).collect();
     for round in 0..rounds {
         for _ in 0..n {
             let a = if round == 0 { addrs[counts.len().min(n - 1)] } else { *rng.pick(&addrs) };
@@ -1075,7 +1102,7 @@ pub fn crowd_positions_check(seed: u64, n: usize) -> Vec<Fail> {
     let mut fails = vec![];
     let mut truth: BTreeMap<u32, (f64, f64, u16)> = BTreeMap::new();
     let mut first_place: BTreeMap<u32, (f64, f64)> = BTreeMap::new();
-    let addr = |i: usize| 0x200000 + (i as u32) * 0x0205 + (i as u32 % 3);
+    let addr = |i: usize| if i % 2 == 0 { 0x400000 + i as u32 } else { 0x200000 + (i as u32) * 0x0205 + (i as u32 % 3) };
     let report = |a: u32, p: (f64, f64), parity: u32, altc: u16, df18: bool| {
         let e = refcpr::encode(p.0, p.1, parity);
         let mut me = [0u8; 7];
@@ -1143,6 +1170,94 @@ pub fn crowd_positions_check(seed: u64, n: usize) -> Vec<Fail> {
         if fails.len() > 4 {
             break;
         }
+    }
+    fails
+}
+
+/// One aircraft on a long flight (a holding circle next to the receiver, 150 m per report, even and
+/// odd reports alternating, `n` reports): nothing panics (C01), the positioned entries of its track
+/// are exactly the positions published before the current one, in order (C14), and an expiry
+/// call that it survives leaves its record untouched (C15).  Histories only reach 60 reports.
+pub fn long_flight_check(n: usize) -> Vec<Fail> {
+    let rx = (52.0, 4.0);
+    let a = 0xabc001u32;
+    let centre = refcpr::destination(rx, 70.0, 60.0);
+    let mut planes = Airplanes::new();
+    let mut published: Vec<(f64, f64)> = vec![];
+    let mut fails = vec![];
+    let track_of = |planes: &Airplanes| -> Vec<(f64, f64)> { planes.get(icao(a)).and_then(|s| s.track.as_ref().map(|t| t.iter().filter_map(|e| e.position.map(|p| (p.latitude, p.longitude))).collect())).unwrap_or_default() };
+    for i in 0..n {
+        let p = refcpr::destination(centre, (i as f64 * 0.2865) % 360.0, 30.0); // 150 m of arc per step
+        let e = refcpr::encode(p.0, p.1, (i % 2) as u32);
+        let mut me = [0u8; 7];
+        set(&mut me, 1, 5, 11);
+        set(&mut me, 9, 12, 0xb50 | 0x10);
+        set(&mut me, 22, 1, (i % 2) as u64);
+        set(&mut me, 23, 17, e.0 as u64);
+        set(&mut me, 40, 17, e.1 as u64);
+        let bytes = squitter(if i % 5 == 4 { 18 } else { 17 }, 5, a, &me);
+        let Ok(frame) = Frame::from_bytes(&bytes) else { continue };
+        if catch_unwind(AssertUnwindSafe(|| planes.action(frame, rx, 500.0))).is_err() {
+            fails.push(("C01/panic/tracker/long_flight".to_string(), format!("report {i} of one aircraft's flight: Airplanes::action panicked at {}", last_panic())));
+            return fails;
+        }
+        if let Some(pos) = planes.get(icao(a)).and_then(|s| s.coords.position) {
+            // every report supersedes the record before it (also when the pairing gives the same place again)
+            published.push((pos.latitude, pos.longitude));
+        }
+        let last = i + 1 == n;
+        if (i % 499 == 0 || last) && published.len() >= 2 {
+            let actual = track_of(&planes);
+            let want = &published[..published.len() - 1];
+            if actual.len() != want.len() || actual.iter().zip(want.iter()).any(|(x, y)| !pos_eq(*x, *y)) {
+                let first = actual.iter().zip(want.iter()).position(|(x, y)| !pos_eq(*x, *y)).unwrap_or(actual.len().min(want.len()));
+                fails.push(("C14/track/long_flight".to_string(), format!("after {} reports of one flight the track has {} positioned entries, {} positions were published before the current one; first difference at index {first}", i + 1, actual.len(), want.len())));
+                return fails;
+            }
+        }
+        if i % 997 == 500 || last {
+            // an expiry call that the aircraft survives
+            let before = dump(&planes);
+            if catch_unwind(AssertUnwindSafe(|| planes.prune(10_000))).is_err() {
+                fails.push(("C01/panic/tracker/long_flight".to_string(), format!("prune after {} reports panicked at {}", i + 1, last_panic())));
+                return fails;
+            }
+            if dump(&planes) != before {
+                fails.push(("C15/survivor_changed/long_flight".to_string(), format!("prune(10000) right after report {} changed the record of the aircraft that was just heard (track length before {})", i + 1, before["records"][format!("{a:06x}")]["track"].as_array().map(|t| t.len()).unwrap_or(0))));
+                return fails;
+            }
+        }
+    }
+    fails
+}
+
+/// C15 with a crowd: `n` aircraft, every second one silent for longer than the threshold; one
+/// expiry call removes exactly those.
+pub fn crowd_expiry_check(n: usize) -> Vec<Fail> {
+    let mut planes = Airplanes::new();
+    let mut fails = vec![];
+    let addr = |i: usize| 0x600000 + (i as u32) * 3;
+    for i in 0..n {
+        let mut me = [0u8; 7];
+        set(&mut me, 1, 5, 4);
+        for k in 0..8 {
+            set(&mut me, 9 + 6 * k, 6, 1 + ((i + k) % 26) as u64);
+        }
+        if let Ok(f) = Frame::from_bytes(&squitter(17, 5, addr(i), &me)) {
+            planes.action(f, (52.0, 4.0), 500.0);
+        }
+    }
+    for i in (0..n).step_by(2) {
+        planes.verif_backdate(icao(addr(i)), std::time::Duration::from_secs(7));
+    }
+    if catch_unwind(AssertUnwindSafe(|| planes.prune(5))).is_err() {
+        fails.push(("C15/prune_panic/crowd".to_string(), format!("prune(5) with {n} aircraft tracked, {} of them silent for 7 s, panicked at {}", n.div_ceil(2), last_panic())));
+    }
+    let mut left: Vec<u32> = planes.keys().map(icao_u).collect();
+    left.sort_unstable();
+    let want: Vec<u32> = (0..n).filter(|i| i % 2 == 1).map(addr).collect();
+    if left != want {
+        fails.push(("C15/prune_keys/crowd".to_string(), format!("{n} aircraft, every second one silent for 7 s: prune(5) left {} of them, expected {} (first survivors {:?})", left.len(), want.len(), left.iter().take(4).map(|x| format!("{x:06x}")).collect::<Vec<_>>())));
     }
     fails
 }
@@ -1403,6 +1518,25 @@ pub fn run(ctx: &Ctx, pid: &'static str) -> ! {
         st.nontrivial_enum += n;
         st.class_n("flight across a zone transition", n);
         st.exhaustive.push("flights across each of the 58 longitude-zone transitions in both hemispheres (5 offsets x 2 directions)".into());
+    }
+    if pid == "C14" || pid == "C15" {
+        let n = ctx.tier.pick(9_000usize, 40_000);
+        st.evaluations += n as u64;
+        st.nontrivial_enum += 1;
+        st.class("long flight of one aircraft");
+        for (sig, msg) in long_flight_check(n).into_iter().filter(|f| f.0.starts_with(pid)) {
+            st.fail(Failure { sig, msg, replay: json!({"kind": "long_flight", "n": n}) });
+        }
+    }
+    if pid == "C15" {
+        for n in [300usize, 1000, ctx.tier.pick(3000usize, 70_000)] {
+            st.evaluations += n as u64;
+            st.nontrivial_enum += 1;
+            st.class("crowd expiry");
+            for (sig, msg) in crowd_expiry_check(n) {
+                st.fail(Failure { sig, msg, replay: json!({"kind": "crowd_expiry", "n": n}) });
+            }
+        }
     }
     if pid == "C12" {
         for (n, rounds) in [(700usize, 3usize), (2100, 2), (70_000, 1)] {
